@@ -420,6 +420,55 @@ static void c16_case(uint64_t idx)
     if (!cold) { if (par) c->par_cleanup(&B); else c->ctr_cleanup(&B); }
 }
 
+/* ---------------------------------------------------------------- C15: a crowd of objects on the real allocator */
+#include <malloc.h>
+static void crowd_case(uint64_t idx)
+{
+    enum { NCROWD = 70000 };
+    const vh_cipher *c = &vh_ciphers[idx % CIPH_N]; int be = (int)((idx / CIPH_N) % 3), k, bad = -1; char d[300], key_[200];
+    static vh_handle *HS; uint8_t key[16], z[16] = {0}, o1[16], o2[16]; struct mallinfo2 m0, m1; long left;
+    vh_rng r; vh_rng_seed(&r, vh_seed, 0x15, idx + 999);
+    snprintf(d, sizeof(d), "{\"driver\":\"drv_life\",\"prop\":\"C15\",\"mode\":\"c15crowd\",\"seed\":%llu,\"case\":%llu,\"variant\":\"%s\"}", (unsigned long long)vh_seed, (unsigned long long)idx, vh_variant);
+    if (be > maxbe[c->id]) be = maxbe[c->id];
+    snprintf(key_, sizeof(key_), "C15:%s:%s:crowd", c->name, vh_backend_names[be]);
+    vh_case_begin(idx, key_, d);
+    am_enable(0);                                          /* the real allocator serves the library in this case */
+    vh_set_cap(be);
+    if (!HS) HS = calloc(NCROWD, sizeof(*HS));
+    memset(HS, 0, NCROWD * sizeof(*HS));
+    { vh_handle w; memset(&w, 0, sizeof(w)); c->ctr_init(&w); c->ctr_cleanup(&w); }      /* warm up allocator bookkeeping */
+    m0 = mallinfo2();
+    vh_rand_bytes(&r, key, 16);
+    vh_call_begin("crowd: init + set_key");
+    for (k = 0; k < NCROWD; ++k) { key[0] = (uint8_t)k; key[1] = (uint8_t)(k >> 8); key[2] = (uint8_t)(k >> 16); if (!c->ctr_init(&HS[k]) || !c->ctr_set_key(&HS[k], key, 16, 7)) { bad = k; break; } }
+    vh_call_end();
+    if (bad < 0) {
+        /* every object still produces its own stream (first, last and a few in between are compared with a fresh object) */
+        static const int probe[5] = {0, 1, 65535, 65536, NCROWD - 1};
+        for (k = 0; k < 5 && bad < 0; ++k) {
+            vh_handle f; int q = probe[k]; memset(&f, 0, sizeof(f));
+            key[0] = (uint8_t)q; key[1] = (uint8_t)(q >> 8); key[2] = (uint8_t)(q >> 16);
+            c->ctr_init(&f); c->ctr_set_key(&f, key, 16, 7); c->ctr_encrypt(o2, z, c->bb, &f); c->ctr_cleanup(&f);
+            c->ctr_encrypt(o1, z, c->bb, &HS[q]);
+            if (memcmp(o1, o2, c->bb)) bad = q;
+        }
+        if (bad >= 0) { strcat(key_, ":object-affected-by-other-live-objects"); snprintf(d, sizeof(d), "{\"objects_alive\":%d,\"wrong_object\":%d}", NCROWD, bad); viol(key_, idx, d); bad = -2; }
+    } else { strcat(key_, ":init-failed-with-many-objects-alive"); snprintf(d, sizeof(d), "{\"objects_alive\":%d}", bad); viol(key_, idx, d); bad = -2; }
+    vh_call_begin("crowd: cleanup");
+    for (k = 0; k < NCROWD; ++k) c->ctr_cleanup(&HS[k]);
+    for (k = NCROWD - 1; k >= 0; --k) c->ctr_cleanup(&HS[k]);                                  /* and once more: must do nothing */
+    vh_call_end();
+    m1 = mallinfo2();
+    left = (long)m1.uordblks - (long)m0.uordblks;
+    VH_COUNT("crowd_cases", 1); VH_MAXC("max_objects_alive_at_once", NCROWD);
+    if (bad != -2 && left > 65536) {       /* more than 64 KiB still in use after every object was cleaned up */
+        snprintf(key_, sizeof(key_), "C15:%s:%s:crowd:heap-not-returned-after-cleanup-of-all-objects", c->name, vh_backend_names[be]);
+        snprintf(d, sizeof(d), "{\"objects\":%d,\"heap_bytes_in_use_before\":%lu,\"after\":%lu}", NCROWD, (unsigned long)m0.uordblks, (unsigned long)m1.uordblks);
+        viol(key_, idx, d);
+    }
+    am_enable(1);
+}
+
 /* --starve 1: a resource-starved process.  RLIMIT_MEMLOCK is zero and mlock/mlock2/mlockall fail with ENOMEM (seccomp), as for an
    unprivileged process whose locked-memory budget is used up: optional hardening inside the library then does not happen,
    which must not change what is wiped or released. */
@@ -485,7 +534,8 @@ int main(int argc, char **argv)
         }
         am_release_all(); am_hard_reset();
     }
-    if (!strcmp(vh_arg_mode, "c16") || cold) vh_run(c16_case); else vh_run(life_case);
+    if (!strcmp(vh_arg_mode, "c15crowd")) { vh_fork_each_case = 1; vh_run(crowd_case); }
+    else if (!strcmp(vh_arg_mode, "c16") || cold) vh_run(c16_case); else vh_run(life_case);
     vh_finish();
     return 0;
 }
